@@ -424,8 +424,18 @@ def c16(prop, tier, seed, core):
 HANDLERS["C16"] = c16
 
 
+WIRE_ENV = [
+    {"OTEL_SDK_DISABLED": "", "DD_TRACE_ENABLED": "true", "JAEGER_DISABLED": "false"},
+    {"OTEL_SDK_DISABLED": "0", "DD_TRACE_ENABLED": "1", "JAEGER_DISABLED": "0", "OTEL_TRACES_SAMPLER": "always_on"},
+    {"OTEL_SDK_DISABLED": "no", "OTEL_SERVICE_NAME": "from-env", "DD_SERVICE": "from-env", "JAEGER_SERVICE_NAME": "from-env"},
+    {"OTEL_SDK_DISABLED": "off", "OTEL_TRACES_EXPORTER": "", "DD_ENV": "", "JAEGER_TAGS": ""},
+    {"OTEL_SDK_DISABLED": "false", "DD_TRACE_ENABLED": "", "RUST_LOG": "trace"},
+]
+
+
 def _wire(prop, tier, seed, core, targets, rule):
     work = _work(core, prop)
+    envs = []
     mult = 1 if tier == "quick" else 10
     jobs = []
     n = 0
@@ -433,10 +443,21 @@ def _wire(prop, tier, seed, core, targets, rule):
         for k in range(shards if tier == "quick" else max(shards, 4)):
             n += 1
             out = os.path.join(work, "shard-%02d.json" % n)
-            jobs.append(("%s#%d" % (target, k), [core.binpath("wire"), "--target", target, "--seed", str(_seed(seed, n)), "--batches", str(batches * mult),
-                         "--time-limit", str(secs * (1 if tier == "quick" else 8)), "--huge", "1" if k == 0 else "0", "--out", out], out))
+            argv = [core.binpath("wire"), "--target", target, "--seed", str(_seed(seed, n)), "--batches", str(batches * mult),
+                    "--time-limit", str(secs * (1 if tier == "quick" else 8)), "--huge", "1" if k == 0 else "0", "--out", out]
+            label = "%s#%d" % (target, k)
+            if k % 2 == 1:
+                # every other shard runs in a process environment that carries the usual tracing
+                # switches with values that mean "not disabled" (or nothing at all): what a reporter
+                # transmits must not depend on them
+                v = WIRE_ENV[(k // 2 + seed) % len(WIRE_ENV)]
+                argv = ["env"] + ["%s=%s" % kv for kv in v.items()] + argv
+                label += "/env:" + ",".join("%s=%r" % kv for kv in v.items())
+                envs.append(label)
+            jobs.append((label, argv, out))
     res = core.run_shards(prop, jobs, max(t[3] for t in targets) * (1 if tier == "quick" else 8) * 3 + 90)
     m = core.merge(prop, tier, seed, res, core.known_for(prop), engine="wire")
+    m["cov"]["shards_with_tracing_switches_in_the_environment"] = envs
     m["rule"] = rule
     return m
 
